@@ -61,8 +61,12 @@ Rules == {
 }
 RuleIds == {r.id : r \in Rules}
 Active(rm) == {r \in Rules : r.id \notin rm}
-Emptied(fn, rm) == \E r \in Active(rm) : r.how \in {"empty", "retfalse"} /\ fn \in r.funcs
-Rewrites(rm) == \E r \in Active(rm) : r.how = "rewrite"
+(* what a rule set does: the set of emptied functions, and whether print is rewritten *)
+Effect(rm) == [emptied |-> UNION {r.funcs : r \in {x \in Active(rm) : x.how \in {"empty", "retfalse"}}},
+               rewrites |-> \E r \in Active(rm) : r.how = "rewrite"]
+(* below, `rm` is always such an effect record, computed once per process run *)
+Emptied(fn, ef) == fn \in ef.emptied
+Rewrites(ef) == ef.rewrites
 
 -----------------------------------------------------------------------------
 (* Crash kinds.  class selects the runtime entry point, val the dynamic type  *)
@@ -122,7 +126,7 @@ KindTable == <<
   K("direct_writer_probe", "probe", "none", FALSE, 0)
 >>
 Kinds == {KindTable[i].k : i \in 1..Len(KindTable)}
-Info(k) == CHOOSE e \in {KindTable[i] : i \in 1..Len(KindTable)} : e.k = k
+KindSet == {KindTable[i] : i \in 1..Len(KindTable)}
 
 CrashClasses == {"panic", "panic2", "sigpanic", "deadlock", "fatal", "fatalinpanic", "stackoverflow", "goexit", "sigquit"}
 ThrowClasses == {"stackoverflow", "sigquit"}      \* m.throwing >= throwTypeRuntime
@@ -146,75 +150,79 @@ Wr(p, file, c, x) == [t |-> "write", fn |-> "", file |-> file, prim |-> p, cond 
 User(c, text)     == [t |-> "user",  fn |-> "", file |-> "", prim |-> "", cond |-> c, text |-> text]
 Exit              == [t |-> "exit",  fn |-> "", file |-> "", prim |-> "", cond |-> "always", text |-> ""]
 
-Body(fn) ==
-  CASE fn = "panic.go:gopanic" ->
+(* (a function built with :> and @@ is evaluated once by TLC, a CASE operator *)
+(* or a function constructor at every call)                                    *)
+BodyF ==
+  (    "panic.go:gopanic" :>
          << Call("panic.go:preprintpanics", "always"), Call("panic.go:fatalpanic", "always") >>
-    [] fn = "signal_unix.go:sigpanic" -> << Call("panic.go:gopanic", "always") >>
-    [] fn = "panic.go:preprintpanics" ->
+    ) @@ ("signal_unix.go:sigpanic" :> << Call("panic.go:gopanic", "always") >>
+    ) @@ ("panic.go:preprintpanics" :>
          << User("val-method", "Error/String method of the panic value"),
             Call("panic.go:throw", "val-method-panics") >>
-    [] fn = "panic.go:fatalpanic" ->
+    ) @@ ("panic.go:fatalpanic" :>
          << Call("panic.go:printpanics", "always"), Call("panic.go:dopanic_m", "always"), Exit >>
-    [] fn = "panic.go:printpanics" ->
+    ) @@ ("panic.go:printpanics" :>
          << Pr("panic.go", "chain", "panic: <first>\n\t"),
             Pr("panic.go", "always", "panic: "), Call("error.go:printpanicval", "always"),
             Pr("panic.go", "recovered", " [recovered]"), Pr("panic.go", "always", "\n") >>
-    [] fn = "error.go:printpanicval" ->
+    ) @@ ("error.go:printpanicval" :>
          << Pr("error.go", "val-basic", "<v>"), Call("error.go:printindented", "val-stringlike"),
             Call("error.go:printanycustomtype", "val-custom") >>
-    [] fn = "error.go:printindented" -> << Pr("error.go", "always", "<s>") >>
-    [] fn = "error.go:printanycustomtype" -> << Pr("error.go", "always", "(T) v") >>
-    [] fn = "panic.go:dopanic_m" ->
+    ) @@ ("error.go:printindented" :> << Pr("error.go", "always", "<s>") >>
+    ) @@ ("error.go:printanycustomtype" :> << Pr("error.go", "always", "(T) v") >>
+    ) @@ ("panic.go:dopanic_m" :>
          << Pr("panic.go", "sig", "[signal SIGSEGV ...]\n"),
             Pr("panic.go", "tb-user-g", "\n"),
             Call("traceback.go:goroutineheader", "tb-user-g"), Call("traceback.go:traceback", "tb-user-g"),
             Pr("panic.go", "tb-g0", "\nruntime stack:\n"), Call("traceback.go:traceback", "tb-g0"),
             Call("traceback.go:tracebackothers", "tb-all"),
             Call("debuglog.go:printDebugLog", "always") >>
-    [] fn = "traceback.go:goroutineheader" -> << Pr("traceback.go", "always", "goroutine N [status]:\n") >>
-    [] fn = "traceback.go:traceback" -> << Call("traceback.go:traceback1", "always") >>
-    [] fn = "traceback.go:tracebacktrap" -> << Call("traceback.go:traceback1", "always") >>
-    [] fn = "traceback.go:traceback1" ->
+    ) @@ ("traceback.go:goroutineheader" :> << Pr("traceback.go", "always", "goroutine N [status]:\n") >>
+    ) @@ ("traceback.go:traceback" :> << Call("traceback.go:traceback1", "always") >>
+    ) @@ ("traceback.go:tracebacktrap" :> << Call("traceback.go:traceback1", "always") >>
+    ) @@ ("traceback.go:traceback1" :>
          << Call("traceback.go:traceback2", "always"), Call("traceback.go:printcreatedby", "child"),
             Call("traceback.go:printAncestorTraceback", "never") >>
-    [] fn = "traceback.go:traceback2" ->
+    ) @@ ("traceback.go:traceback2" :>
          << Call("traceback.go:printFuncName", "always"), Call("traceback.go:printArgs", "always"),
             Pr("traceback.go", "always", "\tfile:line +0x..\n") >>
-    [] fn = "traceback.go:printFuncName" -> << Pr("traceback.go", "always", "pkg.func") >>
-    [] fn = "traceback.go:printArgs" -> << Pr("traceback.go", "always", "(0x..)") >>
-    [] fn = "traceback.go:printcreatedby" -> << Call("traceback.go:printcreatedby1", "always") >>
-    [] fn = "traceback.go:printcreatedby1" -> << Pr("traceback.go", "always", "created by pkg.func in goroutine N\n") >>
-    [] fn = "traceback.go:printAncestorTraceback" -> << Pr("traceback.go", "always", "[originating from goroutine N]:\n") >>
-    [] fn = "traceback.go:tracebackothers" -> << Call("traceback.go:tracebacksomeothers", "always") >>
-    [] fn = "traceback.go:tracebacksomeothers" ->
+    ) @@ ("traceback.go:printFuncName" :> << Pr("traceback.go", "always", "pkg.func") >>
+    ) @@ ("traceback.go:printArgs" :> << Pr("traceback.go", "always", "(0x..)") >>
+    ) @@ ("traceback.go:printcreatedby" :> << Call("traceback.go:printcreatedby1", "always") >>
+    ) @@ ("traceback.go:printcreatedby1" :> << Pr("traceback.go", "always", "created by pkg.func in goroutine N\n") >>
+    ) @@ ("traceback.go:printAncestorTraceback" :> << Pr("traceback.go", "always", "[originating from goroutine N]:\n") >>
+    ) @@ ("traceback.go:tracebackothers" :> << Call("traceback.go:tracebacksomeothers", "always") >>
+    ) @@ ("traceback.go:tracebacksomeothers" :>
          << Pr("traceback.go", "always", "\n"), Call("traceback.go:goroutineheader", "always"),
             Call("traceback.go:traceback", "always") >>
-    [] fn = "debuglog.go:printDebugLog" -> << Wr("gwrite", "debuglog.go", "dlog-enabled", "debug log") >>
-    [] fn = "panic.go:fatal" ->
+    ) @@ ("debuglog.go:printDebugLog" :> << Wr("gwrite", "debuglog.go", "dlog-enabled", "debug log") >>
+    ) @@ ("panic.go:fatal" :>
          << Call("panic.go:printPreFatalDeferPanic", "in-panic"),
             Pr("panic.go", "always", "fatal error: "), Call("error.go:printindented", "always"),
             Pr("panic.go", "always", "\n"), Call("panic.go:fatalthrow", "always") >>
-    [] fn = "panic.go:printPreFatalDeferPanic" ->
+    ) @@ ("panic.go:printPreFatalDeferPanic" :>
          << Call("panic.go:printpanics", "always"), Pr("panic.go", "always", "\t") >>
-    [] fn = "panic.go:throw" ->
+    ) @@ ("panic.go:throw" :>
          << Pr("panic.go", "always", "fatal error: "), Call("error.go:printindented", "always"),
             Pr("panic.go", "always", "\n"), Call("panic.go:fatalthrow", "always") >>
-    [] fn = "panic.go:fatalthrow" -> << Call("panic.go:dopanic_m", "always"), Exit >>
-    [] fn = "proc.go:checkdead" -> << Call("panic.go:fatal", "always") >>
-    [] fn = "stack.go:newstack" ->
+    ) @@ ("panic.go:fatalthrow" :> << Call("panic.go:dopanic_m", "always"), Exit >>
+    ) @@ ("proc.go:checkdead" :> << Call("panic.go:fatal", "always") >>
+    ) @@ ("stack.go:newstack" :>
          << Pr("stack.go", "always", "runtime: goroutine stack exceeds N-byte limit\n"), Call("panic.go:throw", "always") >>
-    [] fn = "signal_unix.go:sighandler" ->
+    ) @@ ("signal_unix.go:sighandler" :>
          << Call("signal_unix.go:fatalsignal", "always"),
             Call("traceback.go:goroutineheader", "tb-level"), Call("traceback.go:tracebacktrap", "tb-level"),
             Call("traceback.go:tracebackothers", "tb-level"), Pr("signal_unix.go", "tb-level", "\n"),
             Call("signal_amd64.go:dumpregs", "tb-level"), Call("debuglog.go:printDebugLog", "always"), Exit >>
-    [] fn = "signal_unix.go:fatalsignal" ->
+    ) @@ ("signal_unix.go:fatalsignal" :>
          << Pr("signal_unix.go", "always", "SIGQUIT: quit\n"), Pr("signal_unix.go", "always", "PC=.. m=.. sigcode=..\n") >>
-    [] fn = "signal_amd64.go:dumpregs" -> << Pr("signal_amd64.go", "always", "rax 0x..\n") >>
-    [] fn = "proc.go:badmorestackgsignal" -> << Call("runtime.go:writeErrStr", "always") >>
-    [] fn = "runtime.go:writeErrStr" -> << Call("runtime.go:writeErrData", "always") >>
-    [] fn = "runtime.go:writeErrData" -> << Wr("write2", "runtime.go", "always", "fatal: morestack on gsignal\n") >>
-    [] OTHER -> << >>
+    ) @@ ("signal_amd64.go:dumpregs" :> << Pr("signal_amd64.go", "always", "rax 0x..\n") >>
+    ) @@ ("proc.go:badmorestackgsignal" :> << Call("runtime.go:writeErrStr", "always") >>
+    ) @@ ("runtime.go:writeErrStr" :> << Call("runtime.go:writeErrData", "always") >>
+    ) @@ ("runtime.go:writeErrData" :> << Wr("write2", "runtime.go", "always", "fatal: morestack on gsignal\n") >>
+    )
+Funcs == DOMAIN BodyF
+Body(fn) == IF fn \in Funcs THEN BodyF[fn] ELSE << >>
 
 (* traceback level as gotraceback() computes it.  With setTraceback emptied   *)
 (* the cache keeps its link-time value 2<<tracebackShift: level 2, all and    *)
@@ -224,7 +232,7 @@ TBAll(tb)   == tb \in {"all", "system", "crash"}
 TBCrash(tb) == tb = "crash"
 
 Env(c, rm) ==
-  LET i == Info(c.kind)
+  LET i == c
       frozen == Emptied("runtime1.go:setTraceback", rm)
       thr == i.class \in ThrowClasses
   IN [class |-> i.class, val |-> i.val, ctx |-> c.ctx, kind |-> c.kind,
@@ -254,76 +262,88 @@ Holds(cond, e) ==
     [] cond = "dlog-enabled" -> FALSE      \* const dlogEnabled = false without the debuglog build tag
     [] OTHER -> FALSE
 
-Nothing == [out |-> << >>, term |-> FALSE]
 Rewritten(it, rm) == it.prim = "print" /\ it.file # "print.go" /\ Rewrites(rm)
 
+(* Run yields the events of a call in order; an `exit` event ends the process, *)
+(* UpToExit cuts the event list there.  (Every value is used once: TLC does   *)
+(* not memoise LET definitions inside recursive operators.)                   *)
+Ev(ch, by, text) == [ch |-> ch, by |-> by, text |-> text]
 RECURSIVE Run(_, _, _), RunSeq(_, _, _, _)
-Run(fn, e, rm) == IF Emptied(fn, rm) THEN Nothing ELSE RunSeq(Body(fn), 1, e, rm)
+Run(fn, e, rm) == IF Emptied(fn, rm) THEN << >> ELSE RunSeq(Body(fn), 1, e, rm)
+Item(it, e, rm) ==
+  IF ~Holds(it.cond, e) THEN << >>
+  ELSE CASE it.t = "call"  -> Run(it.fn, e, rm)
+         [] it.t = "write" -> IF Rewritten(it, rm) THEN << >> ELSE << Ev("stderr", "runtime", it.text) >>
+         [] it.t = "user"  -> << Ev("stdout", "program", it.text) >>
+         [] OTHER          -> << Ev("-", "exit", "") >>
 RunSeq(items, i, e, rm) ==
-  IF i > Len(items) THEN Nothing
-  ELSE LET it == items[i]
-           r == IF ~Holds(it.cond, e) THEN Nothing
-                ELSE CASE it.t = "call"  -> Run(it.fn, e, rm)
-                       [] it.t = "write" -> IF Rewritten(it, rm) THEN Nothing
-                                            ELSE [out |-> << [ch |-> "stderr", by |-> "runtime", text |-> it.text] >>, term |-> FALSE]
-                       [] it.t = "user"  -> [out |-> << [ch |-> "stdout", by |-> "program", text |-> it.text] >>, term |-> FALSE]
-                       [] OTHER          -> [out |-> << >>, term |-> TRUE]
-       IN IF r.term THEN r
-          ELSE LET rest == RunSeq(items, i + 1, e, rm)
-               IN [out |-> r.out \o rest.out, term |-> rest.term]
+  IF i > Len(items) THEN << >> ELSE Item(items[i], e, rm) \o RunSeq(items, i + 1, e, rm)
+ExitAt(evs) == {j \in 1..Len(evs) : evs[j].by = "exit"}
+FirstExit(xs) == CHOOSE j \in xs : \A m \in xs : j <= m
+Cut(evs, xs) == IF xs = {} THEN evs ELSE SubSeq(evs, 1, FirstExit(xs) - 1)
+UpToExit(evs) == [out |-> Cut(evs, ExitAt(evs)), term |-> ExitAt(evs) # {}]
 
 (* One whole process run: the program's own marker writes, then the crash.    *)
-Marker == << [ch |-> "stderr", by |-> "program", text |-> "OWN:start"],
-             [ch |-> "stdout", by |-> "program", text |-> "OUT:start"] >>
-Recovers(c) == c.rec /\ Info(c.kind).rcv
-Process(c, rm) ==
-  LET i == Info(c.kind)
-      e == Env(c, rm)
-  IN IF Recovers(c)
-     THEN [out |-> Marker \o << [ch |-> "stdout", by |-> "program", text |-> "OUT:recovered=" \o i.val] >>, exit |-> "0"]
-     ELSE LET r == Run(Entry(i.class), e, rm)
-          IN [out |-> Marker \o r.out,
-              exit |-> IF r.term THEN (IF e.docrash THEN "SIGABRT" ELSE "2")
-                       ELSE IF i.class = "sigterm" THEN "SIGTERM" ELSE ToString(i.exit)]
+Marker == << Ev("stderr", "program", "OWN:start"), Ev("stdout", "program", "OUT:start") >>
+Recovers(c) == c.rec /\ c.rcv
+Outcome(r, i, e) ==
+  [out |-> Marker \o r.out,
+   exit |-> IF r.term THEN (IF e.docrash THEN "SIGABRT" ELSE "2")
+            ELSE IF i.class = "sigterm" THEN "SIGTERM" ELSE ToString(i.exit)]
+ProcessE(c, rm) ==
+  IF Recovers(c)
+  THEN [out |-> Marker \o << Ev("stdout", "program", "OUT:recovered=" \o c.val) >>, exit |-> "0"]
+  ELSE Outcome(UpToExit(Run(Entry(c.class), Env(c, rm), rm)), c, Env(c, rm))
 
-Tiny(c)    == Process(c, Removed)        \* the -tiny build (with the rules of this configuration)
-Regular(c) == Process(c, RuleIds)        \* the regular build: no rule at all
+Process(c, removed) == ProcessE(c, Effect(removed))
+EffTiny == Effect(Removed)
+EffNone == Effect(RuleIds)
+Tiny(c)    == ProcessE(c, EffTiny)       \* the -tiny build (with the rules of this configuration)
+Regular(c) == ProcessE(c, EffNone)       \* the regular build: no rule at all
 
 RuntimeWrites(p) == {j \in 1..Len(p.out) : p.out[j].by = "runtime"}
 ProgramOut(p) == SelectSeq(p.out, LAMBDA x : x.by = "program")
 
 -----------------------------------------------------------------------------
-Cases == {[kind |-> k, ctx |-> x, tb |-> t, rec |-> b] : k \in Kinds, x \in Contexts, t \in TBValues, b \in BOOLEAN}
+(* a case carries the table row of its kind *)
+MkCase(e, x, t, b) == [kind |-> e.k, class |-> e.class, val |-> e.val, rcv |-> e.rcv, exit |-> e.exit,
+                       ctx |-> x, tb |-> t, rec |-> b]
+Cases == {MkCase(e, x, t, b) : e \in KindSet, x \in Contexts, t \in TBValues, b \in BOOLEAN}
 
 (* Deviations that the transcription itself derives (they are checked to be   *)
 (* exactly these, see GapsAreDerived); the harness looks for them on the real *)
 (* binaries and reports them as findings.                                     *)
-GapUserMethod(c) == Info(c.kind).val = "noisy" /\ ~Recovers(c)
-GapCrashAbort(c) == c.tb = "crash" /\ Info(c.kind).class \in CrashClasses /\ ~Recovers(c)
+GapUserMethod(c) == c.val = "noisy" /\ ~Recovers(c)
+GapCrashAbort(c) == c.tb = "crash" /\ c.class \in CrashClasses /\ ~Recovers(c)
 
-VARIABLES cur, phase
-vars == <<cur, phase>>
-Init == cur \in Cases /\ phase = "start"
-Next == phase = "start" /\ phase' = "done" /\ UNCHANGED cur
+(* One state per case: `start` holds the case, the single step runs the two   *)
+(* builds of the program (the interpreter above under the -tiny rule set and  *)
+(* under no rule) and stores what each process wrote and how it ended.        *)
+VARIABLES cur, phase, tinyR, regR
+vars == <<cur, phase, tinyR, regR>>
+NotRun == [out |-> << >>, exit |-> "-"]
+Init == cur \in Cases /\ phase = "start" /\ tinyR = NotRun /\ regR = NotRun
+Next == /\ phase = "start" /\ phase' = "done" /\ UNCHANGED cur
+        /\ tinyR' = Tiny(cur) /\ regR' = Regular(cur)
 Spec == Init /\ [][Next]_vars
 
 (* Silent: the -tiny process writes nothing but what the program wrote.       *)
-Silent == phase = "done" => RuntimeWrites(Tiny(cur)) = {}
+Silent == phase = "done" => RuntimeWrites(tinyR) = {}
 (* SemanticsKept: exit status and the program's own output are those of the   *)
 (* regular build, except for the two derived gaps.                            *)
 SemanticsKept ==
   phase = "done" =>
-    /\ (~GapCrashAbort(cur) => Tiny(cur).exit = Regular(cur).exit)
-    /\ (~GapUserMethod(cur) => ProgramOut(Tiny(cur)) = ProgramOut(Regular(cur)))
+    /\ (~GapCrashAbort(cur) => tinyR.exit = regR.exit)
+    /\ (~GapUserMethod(cur) => ProgramOut(tinyR) = ProgramOut(regR))
 GapsAreDerived ==
   phase = "done" =>
-    /\ (GapCrashAbort(cur) /\ Removed = {} => Tiny(cur).exit # Regular(cur).exit)
-    /\ (GapUserMethod(cur) /\ Removed = {} => ProgramOut(Tiny(cur)) # ProgramOut(Regular(cur)))
+    /\ (GapCrashAbort(cur) /\ Removed = {} => tinyR.exit # regR.exit)
+    /\ (GapUserMethod(cur) /\ Removed = {} => ProgramOut(tinyR) # ProgramOut(regR))
 (* The regular build does print for every crashing kind (the case is not vacuous). *)
 NonVacuous ==
   phase = "done" =>
-    (Info(cur.kind).class \in CrashClasses \cup {"probe"} /\ ~Recovers(cur)
-       => RuntimeWrites(Regular(cur)) # {})
+    (cur.class \in CrashClasses \cup {"probe"} /\ ~Recovers(cur)
+       => RuntimeWrites(regR) # {})
 
 (* Positions: in obfuscated packages printFile puts every token on line 1 of  *)
 (* the empty file name; packages that are never obfuscated (runtime and its   *)
@@ -336,25 +356,39 @@ ASSUME Removed = {} => Positions
 -----------------------------------------------------------------------------
 (* Mutation prediction: for every rule, the kinds that start printing and the *)
 (* kinds whose exit status / own output changes when only that rule goes.     *)
-PrintsUnder(rm) == {k \in Kinds : \E c \in Cases : c.kind = k /\ RuntimeWrites(Process(c, rm)) # {}}
-ExitDiffersUnder(rm) == {k \in Kinds : \E c \in Cases : c.kind = k /\ Process(c, rm).exit # Regular(c).exit}
-OwnOutDiffersUnder(rm) == {k \in Kinds : \E c \in Cases : c.kind = k /\ ProgramOut(Process(c, rm)) # ProgramOut(Regular(c))}
-Predict == [r \in RuleIds |-> [prints |-> PrintsUnder({r}), exit_differs |-> ExitDiffersUnder({r}),
-                               own_output_differs |-> OwnOutDiffersUnder({r})]]
+(* (evaluated on the unrecovered child-goroutine cases of two GOTRACEBACK settings: the     *)
+(* others reach no further write site)                                                     *)
+PCases(k) == {MkCase(e, "child", t, FALSE) : e \in {d \in KindSet : d.k = k}, t \in {"unset", "crash"} \cap TBValues}
+PAll == UNION {PCases(k) : k \in Kinds}
+RegT == [c \in PAll |-> Regular(c)]
+MutT == [r \in RuleIds |-> LET ef == Effect({r}) IN [c \in PAll |-> ProcessE(c, ef)]]
+Predict == [r \in RuleIds |->
+             [prints |-> {k \in Kinds : \E c \in PCases(k) : RuntimeWrites(MutT[r][c]) # {}},
+              exit_differs |-> {k \in Kinds : \E c \in PCases(k) : MutT[r][c].exit # RegT[c].exit},
+              own_output_differs |-> {k \in Kinds : \E c \in PCases(k) : ProgramOut(MutT[r][c]) # ProgramOut(RegT[c])}]]
+BaseT == [c \in PAll |-> ProcessE(c, Effect({}))]
+Baseline == [prints |-> {k \in Kinds : \E c \in PCases(k) : RuntimeWrites(BaseT[c]) # {}},
+             exit_differs |-> {k \in Kinds : \E c \in PCases(k) : BaseT[c].exit # RegT[c].exit},
+             own_output_differs |-> {k \in Kinds : \E c \in PCases(k) : ProgramOut(BaseT[c]) # ProgramOut(RegT[c])}]
 
+(* Export.  cases: what the harness must run; expect: what the model says     *)
+(* about each (kind, GOTRACEBACK) - the outcome does not depend on the        *)
+(* goroutine context except for the created-by line of a child goroutine, so  *)
+(* it is evaluated for the child context.                                     *)
 CaseRow(c) ==
-  [kind |-> c.kind, ctx |-> c.ctx, tb |-> c.tb, rec |-> c.rec, class |-> Info(c.kind).class,
-   recovers |-> Recovers(c),
-   regular_prints |-> RuntimeWrites(Regular(c)) # {},
-   tiny_prints |-> RuntimeWrites(Tiny(c)) # {},
-   exit_regular |-> Regular(c).exit, exit_tiny |-> Tiny(c).exit,
-   gap_user_method |-> GapUserMethod(c), gap_crash_abort |-> GapCrashAbort(c)]
+  [kind |-> c.kind, ctx |-> c.ctx, tb |-> c.tb, rec |-> c.rec, class |-> c.class,
+   recovers |-> Recovers(c), gap_user_method |-> GapUserMethod(c), gap_crash_abort |-> GapCrashAbort(c)]
+ExpectRow(c, t, g) ==
+  [kind |-> c.kind, tb |-> c.tb, regular_prints |-> RuntimeWrites(g) # {}, tiny_prints |-> RuntimeWrites(t) # {},
+   exit_regular |-> g.exit, exit_tiny |-> t.exit,
+   own_output_equal |-> ProgramOut(t) = ProgramOut(g)]
+ECases == {MkCase(e, "child", t, FALSE) : e \in KindSet, t \in TBValues}
 
 Export == [cases |-> SetToSeq({CaseRow(c) : c \in Cases}),
+           expect |-> SetToSeq({ExpectRow(c, Tiny(c), Regular(c)) : c \in ECases}),
            rules |-> SetToSeq({[id |-> r.id, how |-> r.how, funcs |-> SetToSeq(r.funcs), note |-> r.note] : r \in Rules}),
            removed |-> SetToSeq(Removed),
            predict |-> Predict,
-           baseline |-> [prints |-> PrintsUnder({}), exit_differs |-> ExitDiffersUnder({}),
-                         own_output_differs |-> OwnOutDiffersUnder({})]]
+           baseline |-> Baseline]
 ASSUME JsonSerialize("tiny_cases.json", Export)
 =============================================================================
